@@ -16,9 +16,13 @@ func VerifC09WriteNoPanic() {
 	n := vf.NondetIntRange("instances", 0, vf.Param("C09.maxInstances", 2))
 	insts := make([]op.Instance, n)
 	badAt := -1
+	// one instance: every value count, symbol, degree 0..9 x 9 quality codes, 42 key spellings;
+	// two or more: a reduced alphabet per instance (the product would be ~10^9 paths), chosen
+	// so that every kind of nonsense still occurs in every position
+	small := n >= 2
 	for i := 0; i < n; i++ {
 		var in op.Instance
-		nv := vf.NondetIntRange("values", 0, 2)
+		nv := vf.NondetIntRange("values", 0, map[bool]int{false: 2, true: 1}[small])
 		for j := 0; j < nv; j++ {
 			num, den := vf.NondetUint("num"), vf.NondetUint("den")
 			vf.Assume(num >= 1)
@@ -29,14 +33,14 @@ func VerifC09WriteNoPanic() {
 		}
 		bad := nv == 0
 		if vf.NondetIntRange("isChord", 0, 1) == 1 {
-			sym := []string{"", "m7", "no-such-chord"}[vf.NondetIntRange("symbol", 0, 2)]
+			sym := []string{"", "no-such-chord", "m7"}[vf.NondetIntRange("symbol", 0, map[bool]int{false: 2, true: 1}[small])]
 			rec, _ := verifDict.Map.GetChord(sym)
 			if sym == "no-such-chord" {
 				rec.Name = sym
 				bad = true
 			}
-			dn := uint(vf.NondetIntRange("degree", 0, 9))
-			dq := vf.NondetIntRange("quality", 0, 8)
+			dn := uint(vf.NondetIntRange("degree", 0, map[bool]int{false: 9, true: 1}[small]))
+			dq := vf.NondetIntRange("quality", 0, map[bool]int{false: 8, true: 2}[small])
 			c := op.NewChord(note.Degree{Value: dn, Name: crdx.Quality(dq)}, rec, nil)
 			in.Chord = &c
 			if _, ok := spec.IntervalSize(dn, dq); !ok && !(dn == 1 && (dq == spec.QDiminished || dq == spec.QDDiminished)) {
@@ -44,7 +48,17 @@ func VerifC09WriteNoPanic() {
 			}
 		}
 		if vf.NondetIntRange("hasKey", 0, 1) == 1 {
-			k, l, a, m := crdx.AnyKey("key.")
+			var k op.Key
+			var l, a int
+			var m bool
+			if small {
+				// C, Eb minor, Ab minor (no scale), G# (no scale)
+				ki := vf.NondetIntRange("key.small", 0, 3)
+				l, a, m = []int{0, 2, 5, 4}[ki], []int{0, -1, -1, 1}[ki], []bool{false, true, true, false}[ki]
+				k = op.Key{Name: crdx.Name(l), Accidental: crdx.Acc(a), Minor: m}
+			} else {
+				k, l, a, m = crdx.AnyKey("key.")
+			}
 			in.Key = &k
 			if !spec.HasScale(l, a, m) {
 				bad = true
